@@ -179,6 +179,20 @@ pub fn run(tier: &str, seed: u64, outdir: &str) {
 
     // exhaustive: single-key objects to nesting depth 2 over the whole vocabulary
     let keys: Vec<&str> = OPKEYS.iter().chain(TAGS.iter()).cloned().collect();
+    // two-key objects over the whole vocabulary (round 10: a multi-key operator object accepted when all
+    // members but one are null), at the top and as the operand of a tag
+    let two: Vec<Value> = vec![json!(null), json!("v"), json!(1), json!({}), json!(["x"])];
+    for k1 in &keys {
+        for k2 in keys.iter().chain(["$bogus", "zz"].iter()) {
+            if k1 == k2 { continue; }
+            for l1 in &two {
+                for l2 in &two {
+                    emit_parse(&mut out, "exhaustive:two-keys", &json!({ *k1: l1, *k2: l2 }));
+                    emit_parse(&mut out, "exhaustive:two-keys-operand", &json!({ "a": { *k1: l1, *k2: l2 } }));
+                }
+            }
+        }
+    }
     let mut level1: Vec<Value> = lv.clone();
     for k in &keys {
         for l in &lv {
